@@ -37,6 +37,9 @@ def alen_iter(e, prog):
             return sum_len([alen_iter(args[0], prog), alen_iter(args[1], prog)])
         if l == "filter" and len(args) == 2:
             return ("CountFiltered", alen_iter(args[0], prog), closure_pred(args[1], prog))
+        if l == "take_while" and len(args) == 2:
+            # the leading run only: at most the filtered count, and less as soon as a rejected element precedes an accepted one
+            return ("CountLeadingRun", alen_iter(args[0], prog), closure_pred(args[1], prog))
         if l in LENGTH_CHANGING:
             return ("Unknown", "length-changing adaptor %s" % name)
         if l in ("encode_utf16",):
@@ -142,6 +145,8 @@ def show_len(l):
         return " + ".join(show_len(x) for x in l[1])
     if k == "CountFiltered":
         return "count{x in %s | %s}" % (show_len(l[1]), show_pred(l[2]))
+    if k == "CountLeadingRun":
+        return "leading-run{x in %s | %s}" % (show_len(l[1]), show_pred(l[2]))
     if k == "SizeOfVal":
         return "size_of_val(%s)" % show(l[1])
     return "%s(%s)" % (k, l[1] if len(l) > 1 else "")
